@@ -141,7 +141,8 @@ def run_impl(case):
             t2 = extract(doc.root)
             docp = Document(xml, parser_options=ParserOptions(reduce_whitespace=True))
             tp = extract(docp.root)
-            return {"xml": xml, "t0": t0, "t1": t1, "t2": t2, "tp": tp}
+            tq = extract(impl.TagNode.parse(xml, parser_options=ParserOptions(reduce_whitespace=True)))
+            return {"xml": xml, "t0": t0, "t1": t1, "t2": t2, "tp": tp, "tq": tq}
         root = build(t)
         doc = Document(root)
         t0 = extract(doc.root)
@@ -149,7 +150,10 @@ def run_impl(case):
         t1 = extract(doc.root)
         doc.reduce_whitespace()
         t2 = extract(doc.root)
-        return {"t0": t0, "t1": t1, "t2": t2, "tp": None}
+        # loading an API-built node with the option (the node loader) must equal loading and reducing
+        docp = Document(build(t), parser_options=ParserOptions(reduce_whitespace=True))
+        tp = extract(docp.root)
+        return {"t0": t0, "t1": t1, "t2": t2, "tp": tp}
 
 
 def check_cases(ctx, cases):
@@ -197,8 +201,46 @@ def check_cases(ctx, cases):
         if skel(r["t1"]) != skel(r["t0"]):
             ctx.fail("something other than whitespace changed", dict(case, impl=r["t1"]), classify)
         if r["tp"] is not None and r["tp"] != r["t1"]:
-            ctx.fail("parsing with reduce_whitespace differs from parsing and reducing",
-                     dict(case, parsed_with_option=r["tp"], reduced_after=r["t1"]), classify)
+            ctx.fail("loading with reduce_whitespace=True differs from loading and reducing afterwards",
+                     dict(case, loaded_with_option=r["tp"], reduced_after=r["t1"]), classify)
+        if r.get("tq") is not None and r["tq"] != r["t1"]:
+            ctx.fail("TagNode.parse with reduce_whitespace=True differs from parsing and reducing afterwards",
+                     dict(case, parsed_with_option=r["tq"], reduced_after=r["t1"]), classify)
+
+
+def shrink_failures(ctx):
+    """replace the recorded failures by one shrunk representative per kind of failure"""
+    if not ctx.failing:
+        return
+    by_what = {}
+    for f in ctx.failing:
+        by_what.setdefault(f["what"], f)
+    shrunk = []
+    for what, f in by_what.items():
+        base = {"route": f["case"]["route"], "tree": tuple_tree(f["case"]["tree"])}
+
+        def reductions(c):
+            for t in common.tree_reductions(c["tree"]):
+                yield {"route": c["route"], "tree": t}
+
+        def failing_whats(cands):
+            sub = common.Ctx(ctx.prop, ctx.tier, ctx.seed)
+            sub.findings = ctx.findings
+            out = []
+            for c in cands:
+                sub.failing = []
+                check_cases(sub, [c])
+                out.append({x["what"] for x in sub.failing})
+            return out
+        small = common.shrink(base, what, reductions, failing_whats, rounds=8, width=25)
+        sub = common.Ctx(ctx.prop, ctx.tier, ctx.seed)
+        sub.findings = ctx.findings
+        check_cases(sub, [small])
+        hit = [x for x in sub.failing if x["what"] == what]
+        shrunk.append(hit[0] if hit else f)
+    n = len(ctx.failing)
+    ctx.failing = shrunk
+    ctx.notes.append("%d failing cases before shrinking; one shrunk representative kept per kind of failure" % n)
 
 
 def replay_open(f):
@@ -236,6 +278,7 @@ def run(ctx, args):
         t = gen_tree(ctx.rng, 3, allow_empty_text=api)
         cases.append({"route": "api" if api else "parse", "tree": t})
     check_cases(ctx, cases)
+    shrink_failures(ctx)
     return ctx.finish(
         rule="documents: exhaustive arrangements of <=3 children out of 8 whitespace text forms, empty/non-empty element, "
              "comment (with/without xml:space=preserve on the root) + random mixed-content trees of depth <=3 with "
